@@ -84,6 +84,7 @@ type Exec struct {
 	fileData map[string]fileStub
 	hb       *hbState
 	syncs    map[*value]*syncObj
+	raceMsgs []string
 	wtrack   map[*value]bool
 	wtrackM  map[*mapVal]bool
 	sched    *scheduler
